@@ -80,6 +80,22 @@ func specCheck[T fl](o flOps[T], strict bool, a, b geom.Rect[T], p geom.Point[T]
 	fail := func(format string, args ...any) string {
 		return "FAIL " + fmt.Sprintf(format, args...) + fmt.Sprintf(" [a=%v b=%v p=%v]", a, b, p)
 	}
+	// ---- Point.In against an independent evaluation of the property's words (half-open on both axes, nothing is In an
+	// empty rectangle): every other check below builds on In
+	indepIn := func(q geom.Point[T], r geom.Rect[T]) bool {
+		if r.Width <= 0 || r.Height <= 0 {
+			return false
+		}
+		return r.X <= q.X && r.Y <= q.Y && q.X < r.X+r.Width && q.Y < r.Y+r.Height
+	}
+	for _, r := range []geom.Rect[T]{a, b} {
+		for _, q := range []geom.Point[T]{p, geom.NewPoint(r.X, r.Y), geom.NewPoint(o.pred(r.Right()), o.pred(r.Bottom())),
+			geom.NewPoint(r.Right(), r.Y), geom.NewPoint(r.X, r.Bottom()), geom.NewPoint(o.pred(r.X), r.Y), geom.NewPoint(r.X, o.pred(r.Y))} {
+			if q.In(r) != indepIn(q, r) {
+				return fail("%v.In(%v) = %v, independent evaluation %v", q, r, q.In(r), indepIn(q, r))
+			}
+		}
+	}
 	// ---- empty operands
 	for _, pr := range [][2]geom.Rect[T]{{a, b}, {b, a}} {
 		e, x := pr[0], pr[1]
@@ -257,7 +273,8 @@ func fspecCoord(r *hx.Rng) float64 {
 	case 6:
 		return 1e6*float64(r.Range(-3, 3)) + float64(r.Range(0, 99))/100 // large with a fraction
 	case 7:
-		return hx.Pick(r, []float64{1e15 + 0.5, -1e12 - 0.3, 1e16, 3e-300, 1e300})
+		return hx.Pick(r, []float64{1e15 + 0.5, -1e12 - 0.3, 1e16, 3e-300, 1e300, math.Copysign(0, -1), 5e-324, -5e-324,
+			2.2250738585072014e-308, 3e-310, 4e307, -4e307, 1, 1 + 0x1p-52, 0x1p53, 0x1p53 + 2, 16777216, 16777217})
 	case 8:
 		return float64(r.Range(-50, 50)) * 0.1
 	default:
@@ -272,7 +289,8 @@ func fspecSize(r *hx.Rng) float64 {
 	case 1:
 		return -float64(r.Range(1, 30)) / 10
 	case 2:
-		return hx.Pick(r, []float64{0.1, 0.2, 0.7, 2.7, 0.3, 1.0 / 3, 1e-3, 1e-9})
+		return hx.Pick(r, []float64{0.1, 0.2, 0.7, 2.7, 0.3, 1.0 / 3, 1e-3, 1e-9, 5e-324, 1e-310, 4e307, math.Copysign(0, -1),
+			0x1p-53, 3 * 0x1p-53, 0x1p-52, 0x1p-24, 3 * 0x1p-25, 1, 2, 3}) // incl. rounding midpoints of 1+w (float64, float32)
 	case 3:
 		return float64(r.Range(1, 9)) / 10
 	case 4:
